@@ -403,6 +403,13 @@ func (b *Bed) Request(c Case) (client.Request, error) {
 	add := func(s Step) {
 		if s.N != "" && len(s.Out) > 0 && (s.Kind != "eh" || s.Type == "scripted") {
 			h := OutcomeHeader(s.Out)
+			// a foreign error is not always the same one: end of file, a url.Error, deadlines and timeouts of
+			// the context, the file system and the network (errors that say Timeout() of themselves)
+			if strings.Contains(h, "foreign") {
+				vs := []string{"foreign", "deadline", "eof", "urlerr", "osdeadline", "nettimeout"}
+				h = strings.ReplaceAll(h, "foreign", vs[hash32(c.ID+"/"+s.N)%uint32(len(vs))]) //nolint:gosec
+			}
+
 			if h == "panic" { // what the panic carries varies from case to case: a string, an error, net/http's abort value
 				h = []string{"panic", "panicerr", "panicabort"}[(len(c.ID)+len(s.N)+int(c.ID[len(c.ID)-1]))%3] //nolint:mnd
 			}
